@@ -190,6 +190,8 @@ def jobs_C11(tier, scale):
                       nmax=8, forced=15, max_size=60),
             graph_job("C11", "bfs", cl, tier, scale, 1200, 30000, "each case in a fresh process: the same edge list searched as three classes (other directedness, other label type) in a generated order",
                       nmax=8, max_size=60, fresh=1),
+            dict(engine="pbt", executor="bfs", config="san", gen="family", cfg=dict(prop="C11", classes=cl, small="1"), cases=_n(tier, 320, 8000, scale), shards=8 if q else 16, max_size=100,
+                 label="layered / grid / diamond-chain / ladder / clique-chain families with up to 4^6 or 3^8 shortest paths per pair (far more paths than V^2), every source: the complete path sets against the reference enumeration"),
             enum_job("bfs", "graphs", dict(prop="C11", classes="DS:none", dmin=0, dmax=3, orders=2), tier, "every directed graph on <=3 vertices, all sources and destinations"),
             enum_job("bfs", "graphs", dict(prop="C11", classes="US:none", umin=0, umax=4, orders=2), tier, "every undirected graph on <=4 vertices, all sources and destinations")]
     if not q:
@@ -239,7 +241,7 @@ def jobs_C13(tier, scale):
     cl = _classes(["DS", "US", "DL", "UL"], ["int", "double", "string", "struct"])
     tf = dict(engine="pbt", executor="text", config="san", gen="textfile", cfg=dict(classes="DS:none;US:none;DL:string;UL:string;DL:int;UL:int", modes="indexfile;namefile"),
               cases=_n(tier, 6000, 150000, scale), shards=8 if tier == "quick" else 16, max_size=80, label="files generated from the documented grammar vs an independent reference parser")
-    jobs = [graph_job("C13", "text", cl, tier, scale, 6000, 150000, "write/load round trips (labels none/int/double/string/struct, indices up to 14; 8 % forced duplicate entries)", nmax=14, extra="mode roundtrip", max_size=60, forced=8), tf,
+    jobs = [graph_job("C13", "text", cl, tier, scale, 6000, 150000, "write/load round trips (labels none/int/double/string/struct, indices up to 14; 8 % forced duplicate entries; in a quarter of the cases the output path already holds a file)", nmax=14, extra="mode roundtrip", max_size=60, forced=8, prefill=25), tf,
             graph_job("C13", "text", _classes(["DS", "US", "DL", "UL"], ["int", "string"]), tier, scale, 48, 960, "round trips of files with 6000-12000 lines (150-200 vertices, each joined to the next 40-60)",
                       ring_pct=100, extra="mode roundtrip", max_size=20)]
     # byte-level differential: whenever the reference parser classifies the input as well-formed, loader and reference must agree
@@ -252,7 +254,7 @@ BIN_CLASSES = "DS:none;US:none;" + ";".join("DL:%s;UL:%s" % (l, l) for l in BIN_
 
 
 def jobs_C14(tier, scale):
-    return [graph_job("C14", "bin", BIN_CLASSES, tier, scale, 8000, 200000, "round trip + byte layout + hand-made files (11 label types x directed/undirected)", nmax=12, extra="mode roundtrip", max_size=60),
+    return [graph_job("C14", "bin", BIN_CLASSES, tier, scale, 8000, 200000, "round trip + byte layout + hand-made files (11 label types x directed/undirected); in a quarter of the cases the output path already holds a file", nmax=12, extra="mode roundtrip", max_size=60, prefill=25),
             graph_job("C14", "bin", BIN_CLASSES, tier, scale, 66, 660, "files of 8000-14000 records (140-170 vertices, each joined to the next 60-80)", nmin=140, nmax=170,
                       extra="mode roundtrip;dense_auto 1", max_size=10),
             graph_job("C14", "bin", BIN_CLASSES, tier, scale, 220, 2200, "unopenable path: every loader and writer throws std::runtime_error", nmax=3, extra="mode badpath", max_size=10),
